@@ -122,11 +122,18 @@ _EMPTY = {"rows": [], "unit": "", "errunit": "", "cov": [], "ivnum": [], "ivden"
 def execute(case):
     import astropy.units as u
     obs = case["obs"]
-    data = _build(case)
     errunit_in = u.Unit(case["unit"]).to_string()
-    events = [{"ev": "Construct", "obs": obs, "clean": case["clean"], "trefmode": case["trefmode"], "trefin": case.get("trefin", 0),
-               "unit": u.Unit(case["unit"]).to_string(), "errunit": errunit_in, "hascov": case["hascov"],
-               "out": _project(data, case, obs)}]
+    ev0 = {"ev": "Construct", "obs": obs, "clean": case["clean"], "trefmode": case["trefmode"], "trefin": case.get("trefin", 0),
+           "unit": u.Unit(case["unit"]).to_string(), "errunit": errunit_in, "hascov": case["hascov"], "raised": False}
+    try:
+        data = _build(case)
+        ev0["out"] = _project(data, case, obs)
+    except Exception as ex:     # every case holds at least one finite observation: the constructor must accept it
+        ev0["raised"] = True
+        ev0["exc"] = repr(ex)[:200]
+        ev0["out"] = dict(_EMPTY)
+        return {"id": case["id"], "events": [ev0]}
+    events = [ev0]
     n = len(data)
     for op in case.get("ops", []):
         if op[0] == "copy":
@@ -163,18 +170,20 @@ LATTICE_COV = [
 
 
 def ivar_case(k, cid, rnd):
+    """covariance = (integer unimodular matrix) * scale in (km/s)^2 or (m/s)^2; ivar * scale must be its integer inverse"""
     import astropy.units as u
     from thejoker import RVData
-    cov = np.array(LATTICE_COV[k % len(LATTICE_COV)], dtype=float)
-    n = len(cov)
+    base = np.array(LATTICE_COV[k % len(LATTICE_COV)], dtype=float)
+    n = len(base)
+    scale = [1.0, 2.0 ** -34, 2.0 ** -14, 2.0 ** 20, 2.0 ** -4][(k // len(LATTICE_COV)) % 5]
+    unit = [u.km / u.s, u.m / u.s][(k // 3) % 2]
     t = np.array(rnd.sample(range(1, 10), n), dtype=float) + T0
-    unit = u.km / u.s
-    d = RVData(t, np.arange(1, n + 1) * unit, cov * unit**2)
-    iv = np.asarray(d.ivar.value, dtype=float)
-    cv = np.asarray(d.cov.value, dtype=float)
-    exact = bool(np.all(np.abs(iv - np.round(iv)) < 1e-9) and np.all(np.abs(cv - np.round(cv)) < 1e-9))
+    d = RVData(t, np.arange(1, n + 1) * unit, base * scale * unit**2)
+    iv = np.asarray(d.ivar.to_value(1 / unit**2), dtype=float) * scale
+    cv = np.asarray(d.cov.to_value(unit**2), dtype=float) / scale
+    exact = bool(np.all(np.abs(iv - np.round(iv)) < 1e-7) and np.all(np.abs(cv - np.round(cv)) < 1e-7))
     return {"id": cid, "events": [{"ev": "Ivar", "cov": np.round(cv).astype(int).tolist(), "ivar": np.round(iv).astype(int).tolist(),
-                                   "exact": exact}]}
+                                   "exact": exact, "scale": scale, "unit": unit.to_string()}]}
 
 
 def _ops(rnd, n):
@@ -240,7 +249,7 @@ def run(ctx, selftest=False):
         ctx.count()
         if len(c["obs"]) > 1:
             ctx.nontrivial(("c", [(o["t"], o["tfin"], o["rvfin"], o["errfin"]) for o in c["obs"]], c["clean"], c["trefmode"], c["hascov"], c["unit"]))
-    for j in range(12 if quick else 60):
+    for j in range(60 if quick else 240):
         traces.append(ivar_case(j, "ivar-%d" % j, rnd))
         ctx.count()
     ctx.sample(traces[0]); ctx.sample(traces[-1])
